@@ -35,7 +35,7 @@ FUNCS = {
     "speed_test": ("argo", ("lon", "lat", "tinp"), wl.p_speed, True),
     "valid_range_test": ("axds", ("inp",), wl.p_valid_range, True),
 }
-WEIGHTS = {"gross_range_test": 3, "spike_test": 4, "rate_of_change_test": 3, "flat_line_test": 3, "attenuated_signal_test": 3, "climatology_test": 5, "density_inversion_test": 3, "location_test": 2, "pressure_increasing_test": 2, "speed_test": 2, "valid_range_test": 3}
+WEIGHTS = {"gross_range_test": 3, "spike_test": 4, "rate_of_change_test": 3, "flat_line_test": 3, "attenuated_signal_test": 3, "climatology_test": 5, "density_inversion_test": 3, "location_test": 2, "pressure_increasing_test": 2, "speed_test": 2, "valid_range_test": 4}
 
 
 def p_atten_full(rng):
@@ -103,7 +103,7 @@ def gen_data(rng, fn, n=None):
     if fn == "pressure_increasing_test":
         # NaN is the only missing marker this test is given (it documents none)
         data["inp"]["carrier"] = rng.pick(("ndarray", "list_nan"))
-    if fn == "valid_range_test" and n and rng.chance(0.3):
+    if fn == "valid_range_test" and n and rng.chance(0.4):
         # magnitudes at which "is this a number or an epoch time?" has different answers
         for _ in range(rng.randint(1, 2)):
             data["inp"]["values"][rng.randrange(n)] = rng.pick((1e10, 9.3e9, 1e20, -1e20, 1e19, 2.0**63))
@@ -140,7 +140,7 @@ def gen_params(rng, fn, data):
     if fn == "attenuated_signal_test":
         return p_atten_full(rng)
     p = gen(rng)
-    if fn == "valid_range_test" and data["inp"]["carrier"] != "dt64_nat" and data["inp"]["values"] and rng.chance(0.3):
+    if fn == "valid_range_test" and data["inp"]["carrier"] != "dt64_nat" and data["inp"]["values"] and rng.chance(0.4):
         # a reading a hair (less than a nanosecond's worth) away from a bound: still strictly on one side of it
         a, b = p["valid_span"]
         i = rng.randrange(len(data["inp"]["values"]))
@@ -616,14 +616,17 @@ BUDGET = {
 EVIDENCE = {
     "level": "exploration",
     "rule": (
-        "Seeded call histories of 1-14 (thorough: 30) operations over the eleven QC test functions: fresh calls (n = 0,1,2,3,...,24; "
-        "finite dyadic values / NaN / None / masked elements; list, float64 ndarray and masked-array carriers; datetime64[ns|s] or "
-        "epoch-second times; admissible parameter sets incl. both spike methods, both attenuated check types with/without "
-        "test_period and min_obs xor min_period, climatology members of every period kind given as dict lists or as one "
-        "ClimatologyConfig object), repeats on the same argument objects, and new data with the parameter objects of an earlier "
-        "call. The history runs in one forked child with the dirty allocator re-patterned per call; every call's reference runs "
-        "in its own child forked from the pristine worker under another pattern. Non-trivial: history of at least two calls. "
-        "Distinct: distinct (digest of all outputs, digest of the op/function sequence)."
+        "Seeded call histories of 1-14 (thorough: 30) operations over a swarm-style random subset of the eleven QC test functions: "
+        "fresh calls (n = 0,1,2,3,...,24; finite dyadic values, magnitudes from 1e-300 to 1e300, readings a hair away from a bound / NaN / "
+        "None / masked elements; list, tuple, int list, float64, float32, read-only and masked-array carriers, masked arrays holding plain "
+        "NaN; datetime64[ns|s] or epoch-second times; positions with stationary stretches; admissible parameter sets as lists / tuples / "
+        "numpy scalars incl. both spike methods, both attenuated check types with/without test_period and min_obs xor min_period, "
+        "climatology members of every period kind with date spans in mixed spellings, given as dict lists or as one ClimatologyConfig "
+        "object), repeats on the same argument objects, new or near-duplicate data with the parameter objects of an earlier call, in-place "
+        "mutation of the caller's own buffers between two calls, a rejected ClimatologyConfig.add between calls. The history runs in one "
+        "forked child with the dirty allocator re-patterned per call; every call's reference runs in its own child forked from the pristine "
+        "worker under another pattern. Non-trivial: history of at least two calls. Distinct: distinct (digest of all outputs, digest of "
+        "the op/function sequence). "
     ),
     "real": ["ioos_qc.qartod (8 tests incl. ClimatologyConfig)", "ioos_qc.argo (2 tests)", "ioos_qc.axds.valid_range_test", "ioos_qc.utils (mapdates, great_circle_distance)", "numpy, pandas (rolling, numba engine), geographiclib"],
     "stub": ["dirty allocator wrappers", "fork-per-call pristine reference processes", "history driver"],
